@@ -64,7 +64,7 @@ PROPS["C01"] = dict(
           "child, grandchild), L and r from built-ins, registered and unregistered numeric levels, and an entry point able to carry r. "
           "Non-trivial: the pair is decided by a clause other than plain built-in ordering, or the entry point is not a plain verb method; "
           "distinct = (clause, entry point, kind of L, kind of r, decision)."
-          " The debug mode may also be changed after the logger's level was set, or switched off again before the call."),
+          " The debug mode may also be changed after the logger's level was set, or switched off again before the call; the side-effect history also runs SetLevel(Debug) on a child / grandchild of an unrelated root; the Print/Println family is also called without a message / without any argument."),
     assumptions=["recording writers installed with SetWriter/SetErrorWriter/AddLevelWriter see everything the logger emits",
                  "is.DebugMode() reflects the process-wide debug mode the gate consults"],
     stages=[
@@ -107,7 +107,7 @@ PROPS["C03"] = dict(
     rule=("rapid draws 1-3 loggers (roots/children, optionally created with 1-4 writer options) and up to 30 steps of writer operations and "
           "probes, then probes every logger at Info, Error and a drawn severity. Non-trivial: the history contains a remove or reset that "
           "changed the model state, or a probe answered by per-level writers or at a custom level; distinct = (operation-name sequence, class set)."
-          " Six custom levels cover every combination of error device / treated-as / negative value / unregistered; in a fifth of the histories one pool writer fails on every Write (routing must be unaffected); the package default logger (and children of it, uniquely named per case) takes part in the histories; one pool writer is handed over as the handle slog.NewLogWriter returns for it; children are also made through WithSkip / WithLevel / WithAttrs; a third of the writer operations are sandwiched between two probes of one severity on that logger."),
+          " Six custom levels cover every combination of error device / treated-as / negative value / unregistered; in a fifth of the histories one pool writer fails on every Write (routing must be unaffected); the package default logger (and children of it, uniquely named per case) takes part in the histories; one pool writer is handed over as the handle slog.NewLogWriter returns for it; children are also made through WithSkip / WithLevel / WithAttrs; a third of the writer operations are sandwiched between two probes of one severity on that logger; an eighth of the probes are blank Println() / Print(\"\") calls (the line break is the record and must be announced like any other)."),
     assumptions=["each record carries a unique probe token, counted in the captured streams",
                  "all loggers are at level Always so that every severity except Off is admitted (gating is C01)"],
     stages=[
@@ -149,7 +149,7 @@ PROPS["C12"] = dict(
     rule=("quick: rapid draws cells (3/4 of them with severity Panic or Fatal) for child processes and in-process scenarios with messages of any "
           "byte class. Non-trivial: the cell terminates, or exactly one conjunct of the termination condition is false; distinct = (entry point, "
           "severity, logger level, both flags, format, process mode)."
-          " The termination flags are set through SetFlags, Add/RemoveFlags, an open SaveFlagsAndMod scope or after its restore function; child scenarios include unregistered negative and huge severities; a third of the child processes log to slog.NewFileWriter(path) instead of the harness's own unbuffered file writer (half of the matrix cells); the flags may also be set by a closed SaveFlagsAndMod scope that added flags which were set already."),
+          " The termination flags are set through SetFlags, Add/RemoveFlags, an open SaveFlagsAndMod scope or after its restore function; child scenarios include unregistered negative and huge severities; a third of the child processes log to slog.NewFileWriter(path) instead of the harness's own unbuffered file writer (half of the matrix cells); the flags may also be set by a closed SaveFlagsAndMod scope that added flags which were set already; calls carry one of four argument shapes (key/value, none, Attr values only, mixed); a quarter of the child processes get an additional -test.bench argument."),
     assumptions=["the child observes the record through an unbuffered os.File write before the process ends"],
     stages=[
         dict(name="child", run="^TestChildSampled$", quick=700, thorough=32000, shards=16, timeout_thorough=3000),
@@ -190,7 +190,7 @@ PROPS["C05"] = dict(
     note="Keys: non-empty, valid UTF-8, no space/'='/quote/control/'.'; reserved names excluded at every level; runs of blanks between pairs are accepted (statement: space-separated); nil may be printed as the bare placeholder <nil>.",
     rule=("as C04 with keys from the legal-logfmt class. Non-trivial: a group followed by at least one sibling in key order, or a hostile byte class "
           "in message/value, or a non-string kind, or a group; distinct = the set of classes and kinds present."
-          " The logger is put into its format in four ways (Set...Mode, option of New, option of New on a child of a parent in another format, With...Mode method); flags are set through all public ways. Scratch record, own time layout and huge messages as C04."),
+          " The logger is put into its format in four ways (Set...Mode, option of New, option of New on a child of a parent in another format, With...Mode method); flags are set through all public ways. Scratch record, own time layout and huge messages as C04. The logger name may need quoting itself (quote + forged pair, LF, TAB, backslash, control byte, non-ASCII, blank, equals sign)."),
     assumptions=["strconv.Unquote is the inverse of the quoting the statement asks for", "production mode = harness binary run under a name not ending in .test"],
     stages=[
         dict(name="production", run="^TestLogfmtRecords$", mode="prod", quick=30000, thorough=800000, shards=16, timeout_thorough=3000),
@@ -210,7 +210,7 @@ PROPS["C07"] = dict(
     rule=("rapid draws the scenario; about half of the call lists have >= 13 entries (stability threshold of the sort). Non-trivial: at least two "
           "sources contribute the same key, or >= 13 attributes with a duplicate, or a parent contributes while the logging logger has no own "
           "attributes; distinct = (format, flag, context mode, class set, chain depth, number of source attributes)."
-          " A quarter of the scenarios give one shared Attrs value (spare capacity) to every logger through SetAttrs1; half emit a second record after attributes were added to a drawn logger of the chain, with another call list. Own attributes may also be set with SetAttrs1(slog.NewAttrs(args...)); a scratch record may be printed right before the record (as C04)."),
+          " A quarter of the scenarios give one shared Attrs value (spare capacity) to every logger through SetAttrs1; half emit a second record after attributes were added to a drawn logger of the chain, with another call list. Own attributes may also be set with SetAttrs1(slog.NewAttrs(args...)); a scratch record may be printed right before the record (as C04). Chain members may be made by WithSkip(1); ancestors may have a context key of their own with a value in the context (never printed)."),
     assumptions=["merge order stated in the property: context < ancestors (outermost first) < own < call"],
     stages=[dict(name="assembly", run="^TestAssembly$", quick=25000, thorough=4000000, shards=16, timeout_thorough=3000)],
 )
@@ -252,7 +252,7 @@ PROPS["C09"] = dict(
     note="sync.Pool reuse cannot be forced or observed from outside; the last history call runs on the probe's goroutine so that the probe normally picks up the context that call returned to the pool. GC may drop pooled objects (covered statistically).",
     rule=("rapid draws the probe and two histories. Non-trivial: a history contains a record longer than the probe, or of another format, or a "
           "colored record of another severity; distinct = (format, severity, named, caller, class set, lengths of both histories)."
-          " Attribute keys include the reserved field names (time often holding a time.Time); the caller file may lie under two path mappings; the probe destination may be re-entrant (logs through another logger inside Write, for emissions 2 and 4). Second test: two levels registered identically must print identically whether or not one was logged while unregistered. A custom level with a foreground colour only is among the severities; histories contain calls with a value whose String method panics (recovered by the caller) and calls with a marshaller that consumes bytes of the encoder it is handed."),
+          " Attribute keys include the reserved field names (time often holding a time.Time); the caller file may lie under two path mappings; the probe destination may be re-entrant (logs through another logger inside Write, for emissions 2 and 4). Second test: two levels registered identically must print identically whether or not one was logged while unregistered. A custom level with a foreground colour only is among the severities; histories contain calls with a value whose String method panics (recovered by the caller) and calls with a marshaller that consumes bytes of the encoder it is handed; history calls from the probe's own call site may run under an inverted privacy-path flag or a further path mapping (undone before the probe)."),
     assumptions=["attributes are rebuilt from the same description for every emission (the encoder sorts argument slices in place)"],
     stages=[dict(name="history", run="^TestHistoryIndependence$", quick=8000, thorough=1200000, shards=16, timeout_thorough=3000),
             dict(name="registration", run="^TestRegistrationHistory$", quick=2000, thorough=400000, shards=8, timeout_thorough=3000),
@@ -305,7 +305,7 @@ PROPS["C17"] = dict(
            "marshalling, short tags, parse results, gating, routing) unchanged, and after a success every known level still satisfies: "
            "String()==title, ParseLevel(String())==level, text and JSON round trips (direct and through encoding/json in a struct), custom tag "
            "or exactly n characters for ShortTag(1..5), gating as the treated-as level, routing to the error writers iff requested."),
-    note="Titles are 1-12 ASCII letters (ShortTag length is defined on bytes); treated-as targets Panic..Trace; the registry is restored between cases by the verif hook.",
+    note="Titles are 1-12 ASCII letters, some with ASCII punctuation incl. quote and backslash (ShortTag length is defined on bytes); treated-as targets Panic..Trace; the registry is restored between cases by the verif hook.",
     rule=("rapid draws 1-8 steps (3/4 registrations, 1/4 lookups of a known level). Non-trivial: the history contains a refused registration, a "
           "case-variant title or a successful registration; distinct = the history text."),
     assumptions=["gating and routing oracles are those of C01 and C03"],
@@ -328,7 +328,7 @@ PROPS["C18"] = dict(
     note="Not asserted (labelled only): textual look-alike prefixes (/rootkit vs /root) and paths in which a prefix re-occurs inside; when a regexp mapping or the /Volumes rule can interfere only the prefix rule and no-panic are asserted; removal of the home/cwd mapping is only exercised in the caller-field test (cwd). Mappings onto their own prefix and cyclic mapping chains are not generated; when a registered replacement itself lies under a protected prefix, that prefix may show (the user asked for it).",
     rule=("rapid draws 0-6 table operations, the two flags and 1-4 paths. Non-trivial: >= 2 applicable mappings, or an absolute replacement, or a "
           "remove before the query; distinct = (table history, flags, paths)."
-          " A quarter of the mappings are registered with a trailing separator; flags are set through all public ways. The caller-field test emits one or two records from the same call statement, the privacy flag drawn anew for each; table histories contain the general reset functions (Reset, ResetFlags, ResetLevel), which must leave the path tables alone. Paths that no prefix mapping applies to and that a registered regexp mapping matches (generated in the shapes the patterns are written for) must equal the regexp rewrites applied in registration order; RemoveKnownPathRegexpMapping removes the first entry with that expression."),
+          " A quarter of the mappings are registered with a trailing separator; flags are set through all public ways. The caller-field test emits one or two records from the same call statement, the privacy flag drawn anew for each; table histories contain the general reset functions (Reset, ResetFlags, ResetLevel), which must leave the path tables alone; the working directory may be changed during a case; the bare /Volumes shapes are generated; the caller-field test adds and removes regexp mappings matching the harness file between records of one call site. Paths that no prefix mapping applies to and that a registered regexp mapping matches (generated in the shapes the patterns are written for) must equal the regexp rewrites applied in registration order; RemoveKnownPathRegexpMapping removes the first entry with that expression."),
     assumptions=["HOME and the working directory of the harness process are the home/cwd the package captured at init"],
     stages=[
         dict(name="safety", run="^TestSafety$", quick=15000, thorough=600000, shards=16, timeout_thorough=3000),
@@ -350,7 +350,7 @@ PROPS["C14"] = dict(
     note="Expected file is slog.Safety(file) (C18 owns the path policy); colored mode prints the function without its package path. log.Logger.Output called directly, goroutine entry points, deferred calls and cgo callers are not built.",
     rule=("matrix enumeration plus rapid sampling (privacy flags toggled). Non-trivial: skip >= 1, or an entry point that is not a method of the "
           "logger (package-level, adapter, bridge); distinct = the cell."
-          " Also: log/slog Loggers derived with With/WithGroup, an earlier SetSkip before the final one, a sibling WithSkip child created afterwards, a SetSkip issued after an adapter/bridge was built on the logger, flags set through all public ways. 21 of the 87 call sites are further argument shapes of the same entry points (plain operands, dangling key, non-string first argument, no arguments, Attr/Group arguments, multi-line message) or carry an error value with a stack trace of its own; sampled cases run the issuing statement 1-3 times in a row, every record checked."),
+          " Also: log/slog Loggers derived with With/WithGroup, an earlier SetSkip before the final one, a sibling WithSkip child created afterwards, a SetSkip issued after an adapter/bridge was built on the logger, flags set through all public ways. 21 of the 87 call sites are further argument shapes of the same entry points (plain operands, dangling key, non-string first argument, no arguments, Attr/Group arguments, multi-line message) or carry an error value with a stack trace of its own; sampled cases run the issuing statement 1-3 times in a row, every record checked; 4 sites sit in package-level func literals."),
     assumptions=["runtime.Callers / CallersFrames give the true logical frames (also for inlined functions)"],
     stages=[
         dict(name="matrix", run="^TestMatrix$", quick=1, thorough=1),
@@ -400,7 +400,7 @@ PROPS["C10"] = dict(
     note="Each case installs a fresh default logger (the process-wide one keeps children of earlier cases and has no public reset). Every logger gets private recording writers right after creation (child loggers do not inherit writers). The wall clock seeding the anonymous names cannot be owned by the harness: covered by the stress test. The production-binary stage checks the Warn default level.",
     rule=("rapid draws the history. Non-trivial: >= 3 loggers and (a With* and a Set* occurred, or New was called with the name of an existing "
           "child); distinct = the history text."
-          " Child names may repeat names used elsewhere in the forest; the package default level is modelled (changed by the package-level SetLevel only, compared with GetLevel after every step); attrs1 settings may hand the same Attrs value (drawn from a pool with spare capacity) to several loggers, also as ONE argument of Set / With; writers are installed with Set* or with Add* on top of the inherited defaults."),
+          " Child names may repeat names used elsewhere in the forest; the package default level is modelled (changed by the package-level SetLevel only, compared with GetLevel after every step); attrs1 settings may hand the same Attrs value (drawn from a pool with spare capacity) to several loggers, also as ONE argument of Set / With; anonymous New(...) may carry options only; SetSkip is drawn on kept WithSkip children and the parent is asked for the same count again (the kept child carries it again); writers are installed with Set* or with Add* on top of the inherited defaults."),
     assumptions=["gating oracle = C01 rule incl. the debug-mode side effect of SetLevel(Debug)", "record decoding = C04/C05 decoders, merge = C07 reference"],
     stages=[
         dict(name="testing", run="^TestHierarchy$", quick=4000, thorough=800000, shards=16, timeout_thorough=3000),
@@ -422,7 +422,7 @@ PROPS["C08"] = dict(
     note="WEAKEST claim of the set: interleavings are sampled by the Go scheduler, not enumerated or controlled; the race detector only reports races on executed paths. Concurrent reconfiguration while logging is outside the claim and never generated. A race report cannot be shrunk by rapid (it is attributed to the whole test); the replay re-runs the stage with the same seed.",
     rule=("Non-trivial: >= 2 goroutines share a logger and a group value or logger attributes or a parent/child pair are involved; distinct = "
           "(formats present, sharing shape, G bucket, number of loggers, GOMAXPROCS, multi-line)."
-          " Workloads may contain blank Print/Println calls (counted), loggers with context keys (every call carries its own context values) and unregistered numeric levels (one per goroutine); the Group value shared by the callers must be unmodified afterwards. Some calls are plain verb methods without any argument; some pass a group of their own under the key of the logger-level shared group (the call's group wins). Records may also arrive through log/slog adapters and std log bridges built before or after the loggers were configured, through per-level writers, and with attribute values of several kilobytes."),
+          " Workloads may contain blank Print/Println calls (counted), loggers with context keys (every call carries its own context values) and unregistered numeric levels (one per goroutine); the Group value shared by the callers must be unmodified afterwards. Some calls are plain verb methods without any argument; some pass a group of their own under the key of the logger-level shared group (the call's group wins); the shared group has a sub-group in key order with a repeated key and is compared by value afterwards; argument-less calls use Infof/Warnf/Errorf half of the time. Records may also arrive through log/slog adapters and std log bridges built before or after the loggers were configured, through per-level writers, and with attribute values of several kilobytes."),
     assumptions=["the recording writers are mutex-protected and copy the payload before returning"],
     stages=[
         dict(name="race", run="^TestConcurrentWorkloads$", race=True, crash_is_violation=True, quick=400, thorough=16000, shards=8, timeout_quick=900, timeout_thorough=3000),
